@@ -96,6 +96,10 @@ CacheLenInst ==
      I("cachelen:update-only", "S", ForStmt(<<>>, <<Bin("E.Less", va, vb)>>, <<ExprStmt(Bin("E.AssignAdd", va, Len_(arr)))>>, <<B0>>)),
      I("cachelen:cond-left", "S", ForStmt(<<>>, <<Bin("E.More", Len_(arr), va)>>, <<>>, <<B0>>)),
      I("cachelen:cond-in-nested-for", "S", ForStmt(<<>>, <<Bin("E.Less", va, vb)>>, <<>>, <<Block(<<ForStmt(<<>>, <<Bin("E.LessEqual", vc, Len_(arr))>>, <<>>, <<B0>>)>>)>>)),
+     \* several reads in one condition: each of them is a read of its own
+     I("cachelen:cond-two", "S", ForStmt(<<>>, <<Bin("E.And", Bin("E.Less", va, Len_(arr)), Bin("E.Less", va, Len_(Var("brr"))))>>, <<>>, <<B0>>)),
+     I("cachelen:cond-both-sides", "S", ForStmt(<<>>, <<Bin("E.Less", Bin("E.Add", Len_(arr), va), Len_(Var("brr")))>>, <<>>, <<B0>>)),
+     I("cachelen:cond-three", "S", ForStmt(<<>>, <<Bin("E.Or", Bin("E.Less", va, Len_(arr)), Bin("E.And", Bin("E.Less", vb, Len_(Var("brr"))), Bin("E.More", Len_(Var("crr")), vc)))>>, <<>>, <<B0>>)),
      I("cachelen:while", "S", N("S.While", A0, <<<<Bin("E.Less", va, Len_(arr))>>, <<B0>>>>)),
      I("cachelen:outside", "S", ExprStmt(Bin("E.Assign", vc, Len_(arr)))),
      I("cachelen:other-member", "S", ForStmt(<<>>, <<Bin("E.Less", va, Member(arr, "length_"))>>, <<>>, <<B0>>))}
